@@ -119,6 +119,63 @@ def run(ctx):
                 ctx.check(okb, "RECORD", "C02:RECORD:%s:record-before-close" % kind, "the end event is recorded before frames are closed and stored",
                           "container end is not recorded before bump_depth_on_end (the stored buffer would lack its end event)", config, ctx.where(ni, ln=ln))
         ctx.check(synthetic <= 1, "RECORD", "C02:RECORD:single-synthetic", "at most one unrecorded (synthetic) delivery", "%d unrecorded deliveries" % synthetic, config, ctx.where(ni))
+        # ---- RECORD:seed — the protocol between an anchored container start and record(.., seeded_new_frame):
+        # record(ev, true, seeded) with seeded == (anchor != 0) skips the LAST frame because that frame was just pushed and
+        # already holds the start event.  So on the anchor != 0 edge the push precedes the call, the pushed frame is seeded
+        # with that event, carries that anchor id and depth 1; and nothing else passes a non-false `seeded`.
+        from ..rules import compares
+        pushes = []
+        for b, t in ni.calls():
+            if last_seg(fx.callee_decl(t)) == "push" and t["args"]:
+                with ni.deep():
+                    if render(ni.sym_operand(t["args"][0])).endswith("self.rec_stack"):
+                        pushes.append(b)
+        ctx.floor("RECORD.frame-pushes", len(pushes), 2, config)
+        cmps = [c for c in compares(ni) if c["op"] in ("Ne", "Eq") and c["rr"] == "0" and c["rl"] == "anchor_id"]
+        nseed = 0
+        for rb in recs:
+            t = ni.blocks[rb]["term"]
+            seeded = ni.sym_operand(t["args"][3])
+            if seeded == ("const", False, "bool"):
+                continue
+            nseed += 1
+            rs = render(seeded)
+            key = "C02:RECORD:seed:%s" % (ni.blocks[rb]["term"].get("ln") and "call#%d" % nseed)
+            okarg = rs == "Ne(anchor_id, 0)" and ni.sym_operand(t["args"][2]) == ("const", True, "bool")
+            ctx.check(okarg, "RECORD", key + ":flag", "seeded_new_frame is exactly `anchor_id != 0` on a start event", "record() is told a frame was seeded under the condition `%s`" % rs, config, ctx.where(ni, rb))
+            # the governing comparison: the nearest one whose block dominates the call
+            gov = [c for c in cmps if ni.dominates(c["block"], rb)]
+            okp = False
+            for c in gov:
+                anch = c["t"] if c["op"] == "Ne" else c["f"]
+                mine = [p_ for p_ in pushes if ni.edge_dominates(c["block"], anch, p_)]
+                if mine and rb not in ni.reachable([anch], avoid=mine):
+                    okp = True
+                    for p_ in mine:
+                        # the pushed frame
+                        fr = ni.sym_operand(ni.blocks[p_]["term"]["args"][1])
+                        okf = fr[0] == "aggr" and fr[1].endswith("RecFrame")
+                        if okf:
+                            flds = dict(zip(fr[3], fr[4]))
+                            okf = render(flds.get("id")) == "anchor_id" and flds.get("depth", ("?",))[:2] == ("const", 1)
+                        ctx.check(okf, "RECORD", key + ":frame", "the new frame carries the node's anchor id and depth 1", "the frame pushed for an anchored start is not {id: anchor_id, depth: 1, ..}: %s" % render(fr)[:120], config, ctx.where(ni, p_))
+                        # seeded with the start event: a push of a clone of the delivered event into the frame's buffer dominates the frame push
+                        seeds = []
+                        for b2, t2 in ni.calls():
+                            if last_seg(fx.callee_decl(t2)) == "push" and ni.dominates(b2, p_) and ni.edge_dominates(c["block"], anch, b2) and b2 != p_:
+                                a1 = render(ni.sym_operand(t2["args"][1]))
+                                if "clone(" in a1 and "ev" in a1:
+                                    seeds.append(b2)
+                        ctx.check(bool(seeds), "RECORD", key + ":seeded", "the new frame's buffer starts with the start event", "the frame pushed for an anchored start is not seeded with the start event (record() skips it, so the replay buffer would lack its first event)", config, ctx.where(ni, p_))
+            ctx.check(okp, "RECORD", key + ":push-first", "on the anchored edge the frame is pushed before record() is told to skip the last frame",
+                      "record(.., seeded_new_frame) can run before the new frame was pushed: the innermost ENCLOSING anchor's buffer is skipped instead and loses this start event (aliases to the outer anchor replay a broken tree)", config, ctx.where(ni, rb))
+        ctx.floor("RECORD.seeded-calls", nseed, 2, config)
+        # record(): the seeded branch skips exactly the last frame
+        rf = fx.fn(LE + "::record")
+        ctx.saw(rf)
+        with rf.deep():
+            skip = [c for c in compares(rf) if c["op"] in ("Ne", "Eq") and any("Sub(" in x and "rec_stack" in x and x.rstrip(")").endswith(", 1") for x in (c["rl"], c["rr"]))]
+        ctx.check(len(skip) == 1, "RECORD", "C02:RECORD:seed:skip-last", "record() skips only the frame at index len-1 when seeded", "record() no longer skips exactly the last frame in the seeded case (%d comparisons with len-1)" % len(skip), config, ctx.where(rf))
         # an anchored scalar is stored under its own id; a closed frame under its own id
         st = 0
         for f in (ni, fx.fn(LE + "::bump_depth_on_end")):
